@@ -3,6 +3,10 @@ From Coq Require Import String List Arith Bool ZArith NArith.
 From SV Require Import gen.Gen_C04 c04.Model_C04 c04.Proofs_C04.
 Import ListNotations.
 
+(* a dropped host root stops being a root: RootToken::drop frees its entry unconditionally (generated fact) *)
+Theorem host_root_drop_frees : root_token_drop_frees = true.
+Proof. reflexivity. Qed.
+
 Theorem mark_queue_is_cleared : mark_queue_cleared = true.
 Proof. exact queue_cleared_lemma. Qed.
 
